@@ -15,8 +15,6 @@ for p,prop in props.items():
     if not os.path.isdir(wt):
         subprocess.run(['git','-C','/repo','worktree','add','--detach',wt,'HEAD'],check=True,capture_output=True)
     for k in (k1,k2): os.makedirs(f'/tmp/seed-out/{p}-{k}',exist_ok=True)
-    brief=open('/tmp/seed7/C01.brief.md').read()
-    # rebuild from template pieces
     head=f"""# Task: seed two breaking changes for one property of csvq
 
 You are testing a verification effort for `mithrandie/csvq` (a Go CLI/library that runs an SQL-like language over CSV/TSV/LTSV/fixed-width/JSON files).
